@@ -46,7 +46,12 @@ pub fn meta(tier: Tier) -> CheckMeta {
             "interleavings are sampled, not exhausted; thread counts above 16 not covered".into(),
             "hangs are decided by the supervisor's quiescence watchdog (no CPU, no progress)".into(),
         ],
-        parts: vec![PartSpec { name: "native", nshards: 8, budget_s: tier.pick(300, 2400), env: vec![], program: None, prepare: None, sanitizer: None }],
+        parts: {
+            let mut parts = vec![PartSpec { name: "native", nshards: 8, budget_s: tier.pick(300, 2400), env: vec![], program: None, prepare: None, sanitizer: None }];
+            if tier == Tier::Thorough { parts.push(crate::sup::sanitizer_part("miri", 8, tier.pick(900, 2400))); }
+            if tier == Tier::Thorough { parts.push(crate::sup::sanitizer_part("tsan", 8, 2400)); }
+            parts
+        },
         must_be_nonzero: vec![
             ("container_rounds_crossing_32", "container never upgraded under contention"),
             ("engine_rounds_fan_in_over_32", "no engine round with fan-in > 32"),
